@@ -165,6 +165,73 @@ def tls_check(tier, seed, res):
     res.extra["tls_registrations_compared"] = nreg
 
 
+# ---- the multi-threaded modules (iv_wait, iv_popen, iv_event, iv_signal) under the deterministic scheduler: whatever the
+# library allocated on behalf of a thread must still be referenced, or have been released, whenever the run can go no further
+MT_MODULES = ["c11", "c19", "c08", "c10"]
+
+
+def mt_hygiene(tier, seed, res):
+    import importlib, subprocess, tempfile
+    per = 150 if tier == "quick" else 1500
+    jobs = []
+    for name in MT_MODULES:
+        mod = importlib.import_module("vlib." + name)
+        b = mod.build()
+        if not (b[0] if isinstance(b, tuple) else b):
+            res.divergences.append((f"T-sched harness of {name} no longer builds", None))
+            return
+        for c in list(mod.gen_cases("quick" if tier == "quick" else "thorough", seed))[:per]:
+            lines = [x for x in c if isinstance(x, list)][0] if isinstance(c, tuple) else c
+            jobs.append((name, mod.HARNESS, c[0] if isinstance(c, tuple) and isinstance(c[0], str) else "case", lines))
+
+    def one(job):
+        name, harness, cname, lines = job
+        os.makedirs(l1.SCRATCH, exist_ok=True)
+        fd, path = tempfile.mkstemp(suffix=".scn", dir=l1.SCRATCH)
+        with os.fdopen(fd, "w") as f:
+            f.write("\n".join(lines) + "\n")
+        try:
+            a = subprocess.run([harness, path], stdout=subprocess.PIPE, stderr=subprocess.PIPE, text=True, timeout=30,
+                               env=dict(os.environ, ASAN_OPTIONS="detect_leaks=1:abort_on_error=0"))
+            return job, a.stdout, a.stderr, a.returncode
+        except subprocess.TimeoutExpired:
+            return job, "", "TIMEOUT", -9
+        finally:
+            os.unlink(path)
+
+    def leak_of(out, err):
+        m = re.findall(r"LEDGER-(\w+) fds=\d+ heap=\d+ leaks=(\d+)", out)
+        if m and m[-1][1] != "0":
+            where = next((l.strip() for l in err.splitlines() if " in iv_" in l or " in __iv_" in l), "")
+            return f"LeakSanitizer: memory allocated by the library is unreachable when the run ends ({m[-1][0].lower()}) {where}"
+        return None
+    ends = collections.Counter()
+    with concurrent.futures.ThreadPoolExecutor(max_workers=common.NCPU) as ex:
+        for job, out, err, rc in ex.map(one, jobs):
+            res.evaluations += 1
+            m = re.findall(r"LEDGER-(\w+) ", out)
+            ends[job[0] + ":" + (m[-1] if m else "no-ledger")] += 1
+            msg = leak_of(out, err)
+            if msg:
+                def pred(ls, job=job):
+                    _, o, e, _ = one((job[0], job[1], job[2], ls))
+                    return leak_of(o, e) is not None
+                keep = lambda l: l.startswith(("cfg", "obj", "thread", "main", "exclude"))
+                small = job[3]
+                try:
+                    small = common.shrink(job[3], lambda ls: pred(ls))
+                except Exception:
+                    pass
+                if not pred(small):
+                    small = job[3]
+                res.impl_violations.append((f"C18:mtleak:{job[0]}", f"hygiene ({job[0]} scenario {job[2]}): {msg}",
+                                            common.write_case(PROP, f"mtleak-{job[0]}-{job[2]}", [f"# harness {job[0]}"] + small, tier, seed, ext="mtscn")))
+                break
+            if m:
+                res.nontrivial.add("mt-" + hashlib.sha1(out.encode()).hexdigest()[:12])
+    res.extra["mt_hygiene_runs"] = dict(ends)
+
+
 def churn_scenario(n, seed):
     L = [f"cfg seed={seed} waitlimit=40", "thread 0", "obj timer t0", "do trel t0 40000000", "main"]
     for k in range(1, n + 1):
@@ -211,6 +278,8 @@ def run(tier, seed, proof):
                 small = l1.shrink_scenario(r.lines, pred, budget=60)
                 res.impl_violations.append((f"C18:ledger:{l1.norm_sig(msg)}", "hygiene: " + msg, common.write_case(PROP, r.name, small, tier, seed, ext="scn")))
     tls_check(tier, seed, res)
+    if not res.impl_violations:
+        mt_hygiene(tier, seed, res)
     # thread churn: the end-of-run ledger must not depend on how many threads came and went
     ok, log = common.build_mt()
     if not ok:
@@ -251,6 +320,15 @@ def replay(path):
         msg = tls_oracle(ops, [x.rstrip() for x in a.stdout.splitlines()])
         print("--- layout oracle:", msg or "ok")
         return 1 if (msg or a.returncode != 0) else 0
+    first = open(path).read().splitlines()
+    hline = next((l for l in first if l.startswith("# harness ")), None)
+    if hline:
+        import importlib, subprocess
+        mod = importlib.import_module("vlib." + hline.split()[2]); mod.build()
+        a = subprocess.run([mod.HARNESS, path], stdout=subprocess.PIPE, stderr=subprocess.PIPE, text=True, env=dict(os.environ, ASAN_OPTIONS="detect_leaks=1:abort_on_error=0"))
+        print(a.stdout[-2500:], a.stderr[-2500:])
+        m = re.findall(r"LEDGER-\w+ fds=\d+ heap=\d+ leaks=(\d+)", a.stdout)
+        return 1 if (a.returncode != 0 or (m and m[-1] != "0")) else 0
     if path.endswith(".mtscn") or "thread 0" in open(path).read():
         common.build_mt()
         out, err, rc = run_mt([l.rstrip("\n") for l in open(path) if not l.startswith("#")])
